@@ -375,7 +375,7 @@ fn main() {
     let plan = Plan { per_type_random, per_field_alone: 4, all_present: 4, mutation_bases, max_perms: 120, big: false };
     // a decode that does not come back / allocates without bound ends this process with exit code 3 and the
     // operations in flight in <out>.runaway (the parent runs each of them again, alone)
-    refcodec::runaway::start_watchdog(format!("{out}.runaway"), std::time::Duration::from_secs(30), 2 << 20);
+    refcodec::runaway::start_watchdog(format!("{out}.runaway"), std::time::Duration::from_secs(20), 2 << 20);
     let make: &(dyn Fn() -> Box<dyn Sut> + Sync) = &|| Box::new(refcodec::runaway::Watched(Child));
     run_types(threads, seed, &mut report, &schema, &keys, prop, id, &plan, make);
     presence_floor(&mut report, &schema, &keys);
